@@ -171,6 +171,11 @@ def search_runs(chk, r, n):
         obs = {f"{r.choice(kinds)}_{r.choice(['total', 'light', 'charm'])}": pts}
         if r.random() < 0.4:
             obs[("XSHERACC" if process == "CC" else "XSHERANC") + "_total"] = [dict(x=0.1, Q2=20.0, y=0.3)]
+        if i_run % 2 == 0:
+            # a cross section and 2xF1 with their (x, Q2, y) points: the evaluated objects keep the caller's
+            # point dicts, and computing must leave them as they are (y included)
+            obs["F1_total"] = [dict(x=0.2, Q2=30.0, y=0.5), dict(x=0.4, Q2=30.0, y=0.0)]
+            obs.setdefault(("XSHERACC" if process == "CC" else "XSHERANC") + "_total", [dict(x=0.1, Q2=20.0, y=0.3), dict(x=0.3, Q2=20.0, y=0.9)])
         tgt = r.choice(["proton", "iron", "isoscalar", dict(Z=1.0, A=2.0)])
         if i_run < 3:
             tgt = [dict(Z=1.0, A=2.0), dict(A=56.0, Z=26.0), "neutron"][i_run]  # explicit compositions are nested dicts of the card
